@@ -1,0 +1,9 @@
+//go:build !verif
+
+package mutable
+
+import "sync"
+
+func verifYield(op string) {}
+
+func verifBeforeLock(l *sync.Mutex) {}
